@@ -700,7 +700,16 @@ def check_kernel_mode(sb, kernel, view, key, mod, consts, mode, opts, res, known
     exr.deadline = t_kernel + budget * 0.5
     env = Env(kernel, consts, mode, W, exr.dom)
     argset = ArgSet(kernel, exr, env)
-    paths = exr.run(kernel.name, None, setup=argset.setup)
+    def setup_with_pre(e_, st_):
+        a_ = argset.setup(e_, st_)
+        # the kernel's precondition prunes the exploration (paths infeasible under it are irrelevant)
+        if kernel.pre:
+            ex.set_ctx(mode, W if W is not None else 64)
+            pz = kernel.pre(env)
+            if pz is not True and pz is not False:
+                e_.base_facts.append(pz)
+        return a_
+    paths = exr.run(kernel.name, None, setup=setup_with_pre)
     paths = [p for p in paths if p.kind != "INFEASIBLE"]
     for p in paths:
         if p.kind == "RET":
